@@ -37,6 +37,10 @@ typedef struct
 typedef int (*vomp_chooser)(void* user, const vomp_point* p, const int* enabled);
 
 void vomp_set_chooser(vomp_chooser c, void* user);
+/* called at EVERY schedule point of a team (also when only one thread is enabled), after the choice: `next` = id of the thread that
+   runs next.  Used to record complete event traces (model conformance, DESIGN 3.5). */
+typedef void (*vomp_observer)(void* user, const vomp_point* p, int next);
+void vomp_set_observer(vomp_observer o, void* user);
 void vomp_set_team_size(int n);      /* team size of the regions of interest; also omp_get_max_threads() */
 void vomp_set_all_regions(int on);   /* 1: every top-level parallel region gets a team */
 void vomp_region_of_interest(void);  /* the next top-level parallel region started by this thread gets a team */
